@@ -91,6 +91,7 @@ def _pyval(v):
 
 
 _PYFN_CACHE = {}
+RLIMIT_PER_MS = 300        # z3 resource units per nominal millisecond of budget (about 400/ms measured on nlsat queries)
 
 
 def _single_var_fn(term):
@@ -168,7 +169,7 @@ class Explorer(object):
         self.max_violations = max_violations
         self.nonfinite = nonfinite
         self.solver = z3.Solver() if logic is None else z3.SolverFor(logic)
-        self.solver.set('timeout', solver_timeout_ms)
+        self._keep = []
         # statistics
         self.paths = 0            # feasible paths run to completion (incl. ones ending in a cut)
         self.paths_completed = 0  # paths that reached the end of the harness function
@@ -206,13 +207,18 @@ class Explorer(object):
         short budget); if it answers unknown - its incremental core does not use nlsat - the same
         formula goes to a fresh solver, for which z3 selects its complete QF_NRA strategy."""
         t = time.time()
+        # incremental solver: short wall-clock budget.  Fresh solver: a z3 *resource limit* instead of a
+        # timeout - deterministic (the verdict does not depend on machine load) and z3 keeps its default
+        # strategy (with 'timeout' set it wraps the tactic: an nlsat query that takes 17 s under rlimit
+        # came back unknown after 300 s under timeout)
         self.solver.set('timeout', min(self.solver_timeout_ms, self.incremental_timeout_ms))
         r = self.solver.check(*assumptions)
         self._answered = self.solver
         self.queries += 1
         if r == z3.unknown:
             fresh = z3.Solver()
-            fresh.set('timeout', self.solver_timeout_ms)
+            fresh.set('rlimit', RLIMIT_PER_MS * self.solver_timeout_ms)
+            self._keep.append(fresh)        # never freed while the process lives
             fresh.add(self.solver.assertions())
             fresh.add(*assumptions)
             r = fresh.check()
@@ -414,7 +420,7 @@ class Explorer(object):
             for hint in getattr(self, 'hints', []):
                 try:
                     saved_t = self.solver_timeout_ms
-                    self.solver_timeout_ms = min(saved_t, 20000)
+                    self.solver_timeout_ms = min(saved_t, 10000)
                     if self._check(z3.Not(cond), hint):
                         break
                 except Inconclusive:
